@@ -183,7 +183,7 @@ fn run_case(addr: SocketAddr, ctx: &Ctx, c: &Case) -> Obs {
     let mut received: Vec<u8> = conn.pending().to_vec();
     let total: usize = pieces.iter().map(|p| p.len()).sum();
     let reader = conn.s.try_clone().expect("clone");
-    reader.set_read_timeout(Some(Duration::from_secs(5))).unwrap();
+    reader.set_read_timeout(Some(patience(Duration::from_secs(5)))).unwrap();
     let rd = std::thread::spawn(move || {
         let mut reader = reader;
         let mut got = vec![];
@@ -196,7 +196,10 @@ fn run_case(addr: SocketAddr, ctx: &Ctx, c: &Case) -> Obs {
                     break;
                 }
                 Ok(n) => got.extend_from_slice(&buf[..n]),
-                Err(_) => break,
+                Err(_) => {
+                    EXPIRED.fetch_add(1, Ordering::SeqCst);
+                    break;
+                }
             }
         }
         (got, eof)
@@ -226,13 +229,30 @@ fn run_case(addr: SocketAddr, ctx: &Ctx, c: &Case) -> Obs {
     Obs::Switched { headers: resp.headers, echo, entered }
 }
 
+/// Number of times a wait ran into its full timeout.  A healthy server never
+/// makes one expire; once three have, the verdict is settled and later cases
+/// stop waiting that long, so that a broken server costs minutes, not hours.
+static EXPIRED: AtomicU64 = AtomicU64::new(0);
+fn patience(full: Duration) -> Duration {
+    if EXPIRED.load(Ordering::SeqCst) >= 3 {
+        Duration::from_millis(200)
+    } else {
+        full
+    }
+}
+
 /// How far the counter moved; waits (up to 2 s) for it to reach `expect` so
 /// that a handler still being scheduled is not missed.
 fn settle(ctx: &Ctx, before: u64, expect: u64) -> u64 {
     let t0 = Instant::now();
+    let limit = patience(Duration::from_secs(2));
     loop {
         let d = ctx.entered.load(Ordering::SeqCst) - before;
-        if d >= expect || t0.elapsed() > Duration::from_secs(2) {
+        if d >= expect {
+            return d;
+        }
+        if t0.elapsed() > limit {
+            EXPIRED.fetch_add(1, Ordering::SeqCst);
             return d;
         }
         std::thread::sleep(Duration::from_millis(1));
